@@ -24,7 +24,7 @@ def cfg(name, frames, maxdepth, maxlen, gen):
 def run_job(args):
     base, k, progs = args
     jf = os.path.join(base, "job%d.json" % k); json.dump({"explicits": EXPLICITS, "programs": progs}, open(jf, "w"))
-    p = subprocess.run(["/venv/bin/python", WORKER, jf], env=dict(os.environ, PYTHONPATH="/repo", PYTHONDONTWRITEBYTECODE="1"), capture_output=True, text=True, timeout=3000)
+    p = subprocess.run(["/venv/bin/python", WORKER, jf], env=dict(os.environ, PYTHONPATH=os.environ.get("VERIF_REPO", "/repo"), PYTHONDONTWRITEBYTECODE="1"), capture_output=True, text=True, timeout=3000)
     if not os.path.exists(jf + ".out"): raise RuntimeError("config worker failed: " + p.stderr[-600:])
     return json.load(open(jf + ".out"))
 
